@@ -481,6 +481,6 @@ pub fn main(mut chk: Check) -> ! {
         chk.replay_one::<Scenario, _>("scenarios", &p, oracle);
     }
     let t = chk.tier();
-    chk.run("scenarios", t.pick(120, 2_500), scenario_strategy(), oracle);
+    chk.run("scenarios", t.pick(160, 2_500), scenario_strategy(), oracle);
     chk.finish()
 }
